@@ -335,7 +335,8 @@ def build(area, L, exclude=()):
         else:
             env["suit-authentication-wrapper"]["SuitAuthentication1"] = {"CoseSign1Tagged": {"protected": {"suit-cose-algorithm-id": "cose-alg-es-256", "suit-cose-key-id": L.uint("b_kid", 23)}, "unprotected": {}, "payload": None, "signature": L.hex("b_sig", 4)}}
             env["suit-manifest"] = man
-            env["suit-integrated-payloads"] = {"#a": L.hex("pa", 3), "#" + L.sel("pn", ["b", "é", ""]): L.hex("pb", 2)}
+            # "#a": three opaque bytes or the empty payload (an empty file / empty hex string is a payload like any other)
+            env["suit-integrated-payloads"] = {"#a": L.hex("pa", L.sel("pa_len", [3, 0])), "#" + L.sel("pn", ["b", "é", ""]): L.hex("pb", 2)}
             if L.bool("with_dep"):
                 env["suit-integrated-dependencies"] = {"dep.suit": {"SUIT_Envelope_Tagged": {"suit-authentication-wrapper": {"SuitDigest": {"suit-digest-algorithm-id": "cose-alg-sha-256", "suit-digest-bytes": "00"}}, "suit-manifest": {"suit-manifest-version": 1, "suit-manifest-sequence-number": L.uint("dseq", 23)}}}}
         return "SuitEnvelopeTagged", "envelope", {"SUIT_Envelope_Tagged": env}
